@@ -274,6 +274,14 @@ func runC03(t *testing.T, scn c03Scn) c03Obs {
 		}
 		defer c03TamperInstall(scn, &obs.TamperHit)()
 	}
+	if scn.Rogue == "psk_only_13" {
+		// the honest side may refuse its own configuration before any datagram is sent
+		if err := validateConfig(ccfg); err != nil {
+			obs.CRes, obs.CErr, obs.SRes, obs.HonestAlert = "local", err.Error(), "hang", 255
+
+			return obs
+		}
+	}
 	lab := newLab(t, ccfg, scfg)
 	defer lab.close()
 	c03AttackerConn = lab.Client.Conn
